@@ -143,3 +143,227 @@ Proof.
     + right. apply Hin; lia.
   - left. apply write_at_out. lia.
 Qed.
+
+(* ------------------------------------------------------------------------------------------ *)
+(* bytesWriter *)
+
+Lemma positive_max z : positive z = Z.max 0 z.
+Proof. unfold positive. destruct (Z.ltb_spec z 0); lia. Qed.
+
+Lemma zlen_nonneg {A} (l : list A) : 0 <= zlen l.
+Proof. unfold zlen. lia. Qed.
+
+Lemma region_eqb_eq a b : region_eqb a b = true <-> a = b.
+Proof.
+  unfold region_eqb, rb, re. destruct a as [a1 a2], b as [b1 b2]; simpl.
+  rewrite andb_true_iff, !Z.eqb_eq. split; [intros [-> ->]; auto | intros H; inversion H; auto].
+Qed.
+
+Lemma region_eqb_refl a : region_eqb a a = true.
+Proof. apply region_eqb_eq. reflexivity. Qed.
+
+Lemma region_eqb_sym a b : region_eqb a b = region_eqb b a.
+Proof.
+  destruct (region_eqb a b) eqn:E.
+  - apply region_eqb_eq in E. subst. symmetry. apply region_eqb_refl.
+  - destruct (region_eqb b a) eqn:E'; auto. apply region_eqb_eq in E'. subst. rewrite region_eqb_refl in E. discriminate.
+Qed.
+
+(* geometry of a writer for a read whose first byte is blob index o: window inside p, and position base in p
+   corresponds to stream (chunk) position w_off *)
+Definition wgeo (o : nat) (p : bytes) (w : writer) : Prop :=
+  0 <= w_base w /\ 0 <= w_len w /\ 0 <= w_off w /\ w_base w + w_len w <= zlen p /\
+  0 <= rb (w_chunk w) /\ Z.of_nat o + w_base w = rb (w_chunk w) + w_off w /\
+  w_off w + w_len w <= rsize (w_chunk w).
+
+(* a Write of data that really is the chunk's content at stream position w_cur only puts right bytes *)
+Lemma bw_write_honest B o p w data :
+  wgeo o p w -> 0 <= w_cur w ->
+  prefix_at B (Z.to_nat (rb (w_chunk w) + w_cur w)) data ->
+  exists p', bw_write p w data = Some (p', w_advance w (zlen data)) /\ sound B o p p' /\
+    (forall x, w_base w <= Z.of_nat x < w_base w + w_len w ->
+               w_cur w <= w_off w + (Z.of_nat x - w_base w) < w_cur w + zlen data -> okpos B o p' x).
+Proof.
+  intros (G1 & G2 & G3 & G4 & G5 & G6 & G7) Hc Hp.
+  unfold bw_write. rewrite !positive_max.
+  pose proof (zlen_nonneg data) as Hd.
+  destruct (Z.ltb_spec (w_len w) (Z.max 0 (w_cur w - w_off w))) as [E1|E1].
+  { exists p. split; auto. split; [apply sound_refl|]. intros x Hx Hq. lia. }
+  destruct (Z.leb_spec (zlen data) (Z.max 0 (w_off w - w_cur w))) as [E2|E2].
+  { exists p. split; auto. split; [apply sound_refl|]. intros x Hx Hq. lia. }
+  set (pEnd := if zlen data <? Z.max 0 (w_off w + w_len w - w_cur w) then zlen data
+               else Z.max 0 (w_off w + w_len w - w_cur w)).
+  assert (HpEnd : pEnd = Z.min (zlen data) (Z.max 0 (w_off w + w_len w - w_cur w))).
+  { unfold pEnd. destruct (Z.ltb_spec (zlen data) (Z.max 0 (w_off w + w_len w - w_cur w))); lia. }
+  destruct (Z.ltb_spec pEnd (Z.max 0 (w_off w - w_cur w))) as [E3|E3]; [lia|].
+  unfold copy_into, slice.
+  set (k := Z.to_nat (w_base w + Z.max 0 (w_cur w - w_off w))).
+  set (src := firstn (Z.to_nat (w_len w - Z.max 0 (w_cur w - w_off w)))
+                (firstn (Z.to_nat (pEnd - Z.max 0 (w_off w - w_cur w)))
+                   (skipn (Z.to_nat (Z.max 0 (w_off w - w_cur w))) data))).
+  assert (Hsrc : prefix_at B (o + k) src).
+  { unfold src. apply prefix_firstn, prefix_firstn.
+    replace (o + k)%nat with (Z.to_nat (rb (w_chunk w) + w_cur w) + Z.to_nat (Z.max 0 (w_off w - w_cur w)))%nat
+      by (unfold k; lia).
+    apply prefix_skipn. exact Hp. }
+  destruct (write_honest B o p k src Hsrc) as [Hs Hcov].
+  eexists. split; [reflexivity|]. split; [exact Hs|].
+  intros x Hx Hq. apply Hcov.
+  - unfold src. rewrite !firstn_length, skipn_length. unfold zlen in *. unfold k. lia.
+  - unfold zlen in G4. lia.
+Qed.
+
+(* a writer that has seen its whole chunk ignores everything that follows *)
+Lemma bw_write_inert p w data :
+  0 <= w_len w -> 0 <= w_off w -> w_off w + w_len w <= rsize (w_chunk w) -> rsize (w_chunk w) <= w_cur w ->
+  bw_write p w data = Some (p, w_advance w (zlen data)).
+Proof.
+  intros G2 G3 G7 Hc. unfold bw_write. rewrite !positive_max.
+  pose proof (zlen_nonneg data) as Hd.
+  destruct (Z.ltb_spec (w_len w) (Z.max 0 (w_cur w - w_off w))) as [E1|E1]; auto.
+  destruct (Z.leb_spec (zlen data) (Z.max 0 (w_off w - w_cur w))) as [E2|E2]; auto.
+  destruct (Z.ltb_spec (zlen data) (Z.max 0 (w_off w + w_len w - w_cur w))) as [E4|E4]; [lia|].
+  destruct (Z.ltb_spec (Z.max 0 (w_off w + w_len w - w_cur w)) (Z.max 0 (w_off w - w_cur w))) as [E3|E3]; [lia|].
+  unfold copy_into. replace (w_len w - Z.max 0 (w_cur w - w_off w)) with 0 by lia.
+  simpl. rewrite write_at_nil. reflexivity.
+Qed.
+
+(* invariant of one writer during a read: geometry, and either untouched or complete with its window right *)
+Definition wok (B : bytes) (o : nat) (p : bytes) (w : writer) : Prop :=
+  wgeo o p w /\
+  (w_cur w = 0 \/ (rsize (w_chunk w) <= w_cur w /\ win B o p (Z.to_nat (w_base w)) (Z.to_nat (w_len w)))).
+
+Lemma wgeo_len o p p' w : length p' = length p -> wgeo o p w -> wgeo o p' w.
+Proof. unfold wgeo, zlen. intros ->. auto. Qed.
+
+Lemma wok_sound B o p p' w : sound B o p p' -> wok B o p w -> wok B o p' w.
+Proof.
+  intros Hs [G C]. split; [exact (wgeo_len o p p' w (proj1 Hs) G)|].
+  destruct C as [C|[C W]]; auto. right. split; auto. eapply sound_win; eauto.
+Qed.
+
+Definition seen_done (seen : list region) (w : writer) : Prop :=
+  mem_region (w_chunk w) seen = true -> rsize (w_chunk w) <= w_cur w.
+
+Lemma ws_write_ok B o c data seen : forall ws p,
+  Forall (wok B o p) ws -> Forall (seen_done seen) ws ->
+  prefix_at B (Z.to_nat (rb c)) data ->
+  exists p' ws', ws_write p ws c data = Some (p', ws') /\ sound B o p p' /\
+    (zlen data = rsize c -> Forall (wok B o p') ws' /\ Forall (seen_done (c :: seen)) ws').
+Proof.
+  induction ws as [|w t IH]; intros p Hw Hsd Hp.
+  - exists p, []. simpl. split; auto. split; [apply sound_refl|]. intros _. split; constructor.
+  - inversion Hw as [|? ? Hw1 Hwt]; subst. inversion Hsd as [|? ? Hs1 Hst]; subst.
+    cbn [ws_write].
+    destruct (region_eqb (w_chunk w) c) eqn:E.
+    + apply region_eqb_eq in E.
+      assert (Hbw : exists p1, bw_write p w data = Some (p1, w_advance w (zlen data)) /\ sound B o p p1 /\
+                (zlen data = rsize c -> wok B o p1 (w_advance w (zlen data)) /\ rsize c <= w_cur w + zlen data)).
+      { destruct Hw1 as [G C]. destruct C as [C|[C W]].
+        - destruct (bw_write_honest B o p w data G) as (p1 & E1 & S1 & Cov).
+          + lia.
+          + rewrite C, E. replace (rb c + 0) with (rb c) by lia. exact Hp.
+          + exists p1. split; auto. split; auto. intros Hfull. split; [|lia]. split.
+            * exact (wgeo_len o p p1 w (proj1 S1) G).
+            * right. simpl. split; [rewrite E; lia|].
+              intros x Hx. apply Cov; destruct G as (G1 & G2 & G3 & G4 & G5 & G6 & G7); rewrite E in *; lia.
+        - exists p. split; [|split; [apply sound_refl|]].
+          + destruct G as (G1 & G2 & G3 & G4 & G5 & G6 & G7). apply bw_write_inert; auto.
+          + intros Hfull. pose proof (zlen_nonneg data). split; [|rewrite <- E; lia].
+            split; [exact G|]. right. simpl. split; [lia|exact W]. }
+      destruct Hbw as (p1 & E1 & S1 & F1). rewrite E1.
+      destruct (IH p1) as (p2 & t' & E2 & S2 & F2); auto.
+      { eapply Forall_impl; [|exact Hwt]. intros a. apply wok_sound. exact S1. }
+      rewrite E2. exists p2, (w_advance w (zlen data) :: t'). split; auto.
+      split; [eapply sound_trans; eauto|].
+      intros Hfull. destruct (F1 Hfull) as [Wk Dn]. destruct (F2 Hfull) as [Wt Dt]. split; constructor; auto.
+      * eapply wok_sound; eauto.
+      * intros _. simpl. rewrite E. exact Dn.
+    + destruct (IH p) as (p2 & t' & E2 & S2 & F2); auto.
+      rewrite E2. exists p2, (w :: t'). split; auto. split; auto.
+      intros Hfull. destruct (F2 Hfull) as [Wt Dt]. split; constructor; auto.
+      * eapply wok_sound; eauto.
+      * intros Hm. simpl in Hm. rewrite region_eqb_sym, E in Hm. simpl in Hm. apply Hs1. exact Hm.
+Qed.
+
+(* ------------------------------------------------------------------------------------------ *)
+(* walkChunks *)
+
+Lemma walk_loop_nil f size cs i e : size <= i -> walk_loop f size cs i e = [].
+Proof.
+  intros H. destruct f; simpl; auto.
+  destruct (Z.ltb_spec i size); [lia|]. rewrite andb_false_r. reflexivity.
+Qed.
+
+(* every visited chunk starts in [i, e], below size, on the grid i + k*cs, and is clipped to the blob *)
+Lemma walk_loop_in size cs e : 0 < cs -> forall f i c,
+  In c (walk_loop f size cs i e) ->
+  i <= rb c /\ rb c <= e /\ rb c < size /\ re c = Z.min (rb c + cs - 1) (size - 1) /\ (rb c - i) mod cs = 0.
+Proof.
+  intros Hcs. induction f as [|f IH]; intros i c Hin; simpl in Hin; [contradiction|].
+  destruct (Z.leb_spec i e); destruct (Z.ltb_spec i size); simpl in Hin; try contradiction.
+  destruct Hin as [<-|Hin].
+  - unfold rb, re; simpl. rewrite Z.sub_diag, Z.mod_0_l by lia.
+    destruct (Z.leb_spec size (i + cs - 1)); lia.
+  - apply IH in Hin. destruct Hin as (H1 & H2 & H3 & H4 & H5). repeat split; try lia.
+    replace (rb c - i) with ((rb c - (i + cs)) + 1 * cs) by lia. rewrite Z.mod_add by lia. exact H5.
+Qed.
+
+(* with the fuel of walk_fuel, every byte of [i, e] below size lies in a visited chunk *)
+Lemma walk_loop_cover size cs e y : 0 < cs -> forall f i,
+  (Z.min e (size - 1) - i) / cs + 1 <= Z.of_nat f ->
+  i <= y -> y <= e -> y < size ->
+  exists c, In c (walk_loop f size cs i e) /\ rb c <= y <= re c.
+Proof.
+  intros Hcs. induction f as [|f IH]; intros i Hf H1 H2 H3.
+  - assert (0 <= (Z.min e (size - 1) - i) / cs) by (apply Z.div_pos; lia). lia.
+  - simpl. destruct (Z.leb_spec i e); [|lia]. destruct (Z.ltb_spec i size); [|lia]. simpl.
+    destruct (Z_le_gt_dec y (i + cs - 1)) as [Hy|Hy].
+    + eexists. split; [left; reflexivity|]. unfold rb, re; simpl.
+      destruct (Z.leb_spec size (i + cs - 1)); lia.
+    + destruct (IH (i + cs)) as (c & Hin & Hc); try lia.
+      * replace (Z.min e (size - 1) - (i + cs)) with ((Z.min e (size - 1) - i) + (-1) * cs) by lia.
+        rewrite Z.div_add by lia. lia.
+      * exists c. split; auto.
+Qed.
+
+Lemma floor_spec a u : 0 <= a -> 0 < u -> floorZ a u = u * (a / u).
+Proof. intros. unfold floorZ. rewrite Z.quot_div_nonneg by lia. lia. Qed.
+
+Lemma ceil_spec a u : 0 <= a -> 0 < u -> ceilZ a u = u * (a / u) + u.
+Proof. intros. unfold ceilZ. rewrite Z.quot_div_nonneg by lia. lia. Qed.
+
+(* the chunks ReadAt walks for [off, off+n) *)
+Lemma read_walk size cs off n :
+  0 < cs -> 0 <= off -> 0 < n ->
+  exists chunks, walk_chunks size cs (all_region cs off n) = Some chunks /\
+    (forall c, In c chunks ->
+       0 <= rb c /\ rb c <= re c /\ re c < size /\ rb c <= off + n - 1 /\ (off <= size -> off <= re c + 1)) /\
+    (forall y, off <= y < off + n -> y < size -> exists c, In c chunks /\ rb c <= y <= re c).
+Proof.
+  intros Hcs Hoff Hn. unfold walk_chunks, all_region. cbn [rb re fst snd].
+  rewrite floor_spec, ceil_spec by lia.
+  pose proof (Z.mul_div_le off cs Hcs) as Hf1.
+  pose proof (Z.mod_pos_bound off cs Hcs) as Hf2.
+  pose proof (Z.div_mod off cs ltac:(lia)) as Hf3.
+  pose proof (Z.mod_pos_bound (off + n - 1) cs Hcs) as Hc2.
+  pose proof (Z.div_mod (off + n - 1) cs ltac:(lia)) as Hc3.
+  assert (Hfl0 : 0 <= cs * (off / cs)) by (apply Z.mul_nonneg_nonneg; [lia|apply Z.div_pos; lia]).
+  rewrite Z.rem_mod_nonneg by lia.
+  rewrite Z.mul_comm, Z.mod_mul by lia. simpl.
+  eexists. split; [reflexivity|]. split.
+  - intros c Hin. apply (walk_loop_in size cs _ Hcs) in Hin.
+    destruct Hin as (H1 & H2 & H3 & H4 & H5).
+    assert (Hal : rb c mod cs = 0).
+    { replace (rb c) with ((rb c - off / cs * cs) + (off / cs) * cs) by lia. rewrite Z.mod_add by lia. exact H5. }
+    assert (Hle : rb c <= off + n - 1).
+    { pose proof (Z.div_mod (rb c) cs ltac:(lia)) as Hd. rewrite Hal in Hd.
+      assert (rb c / cs <= (off + n - 1) / cs).
+      { apply Z.div_le_mono; lia. } nia. }
+    repeat split; try lia.
+  - intros y Hy Hs.
+    apply (walk_loop_cover size cs _ y Hcs); try lia.
+    unfold walk_fuel. rewrite Z2Nat.id; [lia|].
+    assert (0 <= (Z.min (cs * ((off + n - 1) / cs) + cs - 1) (size - 1) - off / cs * cs) / cs) by (apply Z.div_pos; lia).
+    lia.
+Qed.
